@@ -345,7 +345,7 @@ def _snap_env(env):
 
     memo = {}
     return Namespace({k: engine.snapshot(v, memo) for k, v in env.items()
-                      if isinstance(v, (SymObj, SymMap, SymSet)) or hasattr(v, "__snapshot__")})
+                      if not isinstance(v, Poison) and (isinstance(v, (SymObj, SymMap, SymSet)) or hasattr(v, "__snapshot__"))})
 
 
 def havoc_obj(o: SymObj, fields, prefix):
@@ -462,6 +462,11 @@ class WhileLoop(_LoopBase):
                 self._dec_env = None
             return
         self.check_frame()
+        if self.spec is not None and self.spec.step_post is not None:
+            ns = self._env(env, wrap_int(self.i))
+            ns.__dict__["iter_pre"] = self.iter_pre
+            ns.__dict__["iter_trace"] = c.trace[self.head_index:]
+            c.prove(f"loop{self.k}.iteration_post", self.spec.step_post(ns), kind="loop")
         c.prove(f"loop{self.k}.step", self._inv(env, wrap_int(tm.Add(self.i, tm.mk_int(1)))), kind="loop")
         if self.spec is not None and self.spec.decreases is not None:
             new = I(self.spec.decreases(self._env(env, wrap_int(tm.Add(self.i, tm.mk_int(1))))))
@@ -472,6 +477,8 @@ class WhileLoop(_LoopBase):
     def assume_inv(self, env):
         c = cur()
         c.assume(self._inv(env, wrap_int(self.i), "assume"))
+        self.iter_pre = _snap_env(env)
+        self.head_index = len(c.trace)
         if self.spec is not None and self.spec.decreases is not None:
             self.dec0 = I(self.spec.decreases(self._env(env, wrap_int(self.i))))
 
